@@ -1,5 +1,5 @@
 CONSTANTS
-  Sigma = {"0", "1", "7", "9", "a", "e", "f", "_", ".", "+", "-", "x", "X", "o", "b", "p", "E", "i"}
+  Sigma = {"0", "1", "9", "a", "e", "_", ".", "+", "-", "x", "X", "o", "b", "p", "E", "i"}
   L = 5
   LH = 6
   StrMode = "full"
